@@ -115,6 +115,12 @@ def build(cfg):
         m.setNucleationSite(p.get("site", "bulk"), p["name"])
         if "infinite" in p:
             m.setInfinitePrecipitateDiffusivity(p["infinite"], p["name"])
+        if "shape" in p:       # (kind, aspect ratio) -- a number, or ("linear", a0, slope per nm) for a size dependent aspect ratio
+            kind, ar = p["shape"]
+            if isinstance(ar, (list, tuple)):
+                a0, sl = float(ar[1]), float(ar[2])
+                ar = (lambda R, a0=a0, sl=sl: a0 + sl * np.asarray(R) / 1e-9)
+            m.setPrecipitateShape(kind, p["name"], ar)
     m.setNucleationDensity(grainSize=cfg.get("grainSize", 1), dislocationDensity=cfg.get("disl", 1e15), bulkN0=cfg.get("bulkN0", 1e28))
     if "gb" in cfg:
         m.setGrainBoundaryEnergy(cfg["gb"])
